@@ -81,7 +81,11 @@ func genLines(r interface{ IntN(int) int }, n int, includes []string, damage boo
 	for i := 0; i < n; i++ {
 		switch x := r.IntN(100); {
 		case x < 55:
-			out = append(out, records[r.IntN(len(records))])
+			l := records[r.IntN(len(records))]
+			if damage && r.IntN(3) == 0 {
+				l = mutateTokens(r, l)
+			}
+			out = append(out, l)
 		case x < 60:
 			out = append(out, "; a comment line "+strings.Repeat("c", r.IntN(40)))
 		case x < 64:
@@ -109,6 +113,12 @@ func genLines(r interface{ IntN(int) int }, n int, includes []string, damage boo
 			l := fmt.Sprintf("$GENERATE %d-%d", r.IntN(3), hi)
 			if r.IntN(3) == 0 {
 				l += fmt.Sprintf("/%d", 1+r.IntN(3))
+			}
+			if r.IntN(12) == 0 {
+				// ranges and steps at the edges of the integer types
+				edge := []string{"2147483646-2147483647", "2147483647-2147483648", "4294967295-4294967296", "9223372036854775806-9223372036854775807",
+					"9223372036854775807-9223372036854775807", "0-9223372036854775807/9223372036854775807", "1-3/9223372036854775806", "0-1/0", "18446744073709551615-18446744073709551616", "-1-2", "3-3"}
+				l = "$GENERATE " + edge[r.IntN(len(edge))]
 			}
 			l += [...]string{" host$ A 10.0.0.$", " ${0,3,d}.rev PTR host-${-1,2,x}.example.org.", " $.gen 300 IN CNAME $.target", " h$ TXT \"n$\" \"$$\"", " g${1000} A 10.1.$.1"}[r.IntN(5)]
 			out = append(out, l)
@@ -238,6 +248,63 @@ func Gen(seed uint64, tier string) any {
 	return sc
 }
 
+// tokens splits a record line at blanks outside quotes.
+func tokens(l string) []string {
+	var out []string
+	cur, inq := "", false
+	for i := 0; i < len(l); i++ {
+		c := l[i]
+		switch {
+		case c == '\\' && i+1 < len(l):
+			cur += l[i : i+2]
+			i++
+		case c == '"':
+			inq = !inq
+			cur += "\""
+		case (c == ' ' || c == '\t') && !inq:
+			if cur != "" {
+				out = append(out, cur)
+				cur = ""
+			}
+		default:
+			cur += string(c)
+		}
+	}
+	if cur != "" {
+		out = append(out, cur)
+	}
+	return out
+}
+
+// mutateTokens damages a record at token level: RDATA tokens are deleted,
+// blanked, duplicated or replaced by edge values (1..3 mutations).
+func mutateTokens(r interface{ IntN(int) int }, l string) string {
+	lead := ""
+	if strings.HasPrefix(l, " ") {
+		lead = " "
+	}
+	t := tokens(l)
+	edge := []string{"\"\"", "\" \"", "\"\t\"", "0", "-1", "65535", "65536", "4294967295", "4294967296", "99999999999999999999", ".", "..", "@", "\\#", "\\# 0", "(", ")", "*", "a.", strings.Repeat("x", 64) + ".", strings.Repeat("y", 300), "\\000", "\\", "::", "1.2.3", "=", "key65535=", "alpn="}
+	for n := 1 + r.IntN(3); n > 0 && len(t) > 1; n-- {
+		i := 1 + r.IntN(len(t)-1) // never the owner
+		if r.IntN(3) > 0 && len(t) > 3 {
+			i = 3 + r.IntN(len(t)-3) // mostly RDATA
+			if i >= len(t) {
+				i = len(t) - 1
+			}
+		}
+		switch r.IntN(5) {
+		case 0:
+			t = append(t[:i], t[i+1:]...)
+		case 1:
+			t = append(t[:i+1], t[i:]...)
+		default:
+			t[i] = edge[r.IntN(len(edge))]
+		}
+	}
+	return lead + strings.Join(t, " ")
+}
+
 func inParens(lines []string) bool {
 	depth := 0
 	for _, l := range lines {
@@ -336,18 +403,30 @@ type outcome struct {
 	top      *simfs.Reader
 	panicked string
 	sticky   string // violation text of the after-the-end probe
+	overflow bool   // gave up: more records than the tree can possibly denote
 	firedAt  int    // records returned before the call in which the first fault fired (-1 = none fired)
 	nexts    int
 }
 
 // parse runs the zone parser over the tree. It is executed on its own
 // goroutine so that a parser that never terminates can be abandoned.
-func parse(sc *Scenario, faults []simfs.Fault, short int) *outcome {
+func parse(sc *Scenario, faults []simfs.Fault, short int) (o *outcome) {
 	files := map[string][]byte{}
 	for _, f := range sc.Files {
 		files[f.Name] = []byte(f.Text())
 	}
-	o := &outcome{firedAt: -1}
+	o = &outcome{firedAt: -1}
+	// generous static bound: every file read 64 times, every $GENERATE at its maximum
+	hardLimit := 0
+	for _, f := range sc.Files {
+		for _, l := range f.Lines {
+			hardLimit++
+			if strings.Contains(strings.ToUpper(l), "$GENERATE") {
+				hardLimit += 65536
+			}
+		}
+	}
+	hardLimit = hardLimit*64 + 1000
 	o.fs = simfs.New(files, faults, short, core.Rng(sc.RunSeed^0xf5))
 	top := sc.Files[0]
 	o.top = o.fs.Reader(top.Name, files[top.Name])
@@ -379,6 +458,11 @@ func parse(sc *Scenario, faults []simfs.Fault, short int) *outcome {
 			o.recs = append(o.recs, rr.String())
 		} else {
 			o.recs = append(o.recs, "")
+		}
+		if len(o.recs) > hardLimit {
+			// far beyond anything the tree can denote: stop feeding memory
+			o.overflow = true
+			return o
 		}
 	}
 	if o.firedAt < 0 && hardFaults(o.fs) > 0 {
@@ -774,6 +858,10 @@ func lexContext(sc *Scenario, f simfs.Fault) string {
 }
 
 func judgeOne(sc *Scenario, res *core.Result, o *outcome, which string) {
+	if o.overflow {
+		res.Fail("P7", "records-unbounded", "the parser had returned %d records from a tree of %d file(s) when it was stopped: more than 64 readings of every file with every $GENERATE at 65536 could yield (%s tree)", len(o.recs), len(sc.Files), which)
+		return
+	}
 	res.Bump("oracle.P2_no_panic")
 	if o.panicked != "" {
 		res.Fail("P2", "panic:"+firstFrame(o.panicked), "the parser panicked on the %s tree: %s", which, o.panicked)
